@@ -1500,16 +1500,29 @@ def run(ctx):
             ctx.oracle_failure("c41:harness-crash", "python harness stopped (rc=%s) after %d of %d ops" % (rc, len(outs), len(lines)),
                                {"stderr": err[-800:]})
         # ---- deep `use` chains: the model is total; Python recursion is bounded by the interpreter's limit
+        # (both sides are cubic in the chain length just below the limit, so the model is only run on short chains;
+        #  for the long ones the expected result is known in closed form)
         deep = []
-        sizes = [50, 400, 900, 990, 1000, 1100, 2000] + ([5000, 20000] if ctx.tier == "thorough" else [])
+        thorough = ctx.tier == "thorough"
+        sizes = [50, 300, 1000, 1100, 2000] + ([900, 990, 5000] if thorough else [])
         for n in sizes:
             for shape in ("chain", "chain-rev", "chain-cycle"):
+                if shape == "chain-rev" and n >= 1000 and not thorough:
+                    continue
                 deep.append((n, shape))
         dlines = ["parse " + enc(deep_chain(n, sh)) for n, sh in deep]
-        rc_m, om, em = ctx.run_lines([drv], dlines)
-        rc_i, oi, ei = run_impl(ctx, dlines)
-        if rc_m != 0 or len(om) != len(dlines):
+        mlim = 1000 if thorough else 400
+        midx = [i for i, (n, sh) in enumerate(deep) if n <= mlim or sh == "chain-cycle"]
+        rc_m, om_, em = ctx.run_lines([drv], [dlines[i] for i in midx])
+        if rc_m != 0 or len(om_) != len(midx):
             raise common.Infra("model driver failed on deep chains: rc=%d %s" % (rc_m, em[-300:]))
+        om = ["ok enums 0 groups %d " % (n + 1) if sh != "chain-cycle" else "error %d cycle" % (3 * n - 1) for n, sh in deep]
+        closed_form_ok = True
+        for i, o in zip(midx, om_):
+            closed_form_ok &= o.startswith(om[i])
+            om[i] = o
+        ctx.oblige("deep chains: model output has the closed form used for the long chains", "correspondence", closed_form_ok, "")
+        rc_i, oi, ei = run_impl(ctx, dlines)
         dis, nrec = [], 0
         if rc_i != 0 or len(oi) != len(dlines):
             ctx.oracle_failure("c41:harness-crash", "python harness crashed on deep use chains (rc=%s)" % rc_i, {"stderr": ei[-800:]})
@@ -1528,7 +1541,7 @@ def run(ctx):
                                             "replay": "%s -c \"import sys; sys.path[:0]=['%s/doc/generate','/verif']; import mjcf_schema; "
                                                       "from checks.c41 import deep_chain; mjcf_schema.parse_string(deep_chain(%d, %r))\""
                                                       % (PY, common.REPO, n, sh)})
-                elif a != b:
+                elif not (a == b or (len(a) < 40 and b.startswith(a))):
                     dis.append({"line": "deep_chain(%d,%r)" % (n, sh), "model": a[:200], "impl": b[:200]})
             ctx.oblige("correspondence deep use chains (where no RecursionError escapes) (%d ops)" % len(dlines), "correspondence",
                        not dis, str(dis[:3]))
